@@ -123,7 +123,10 @@ class SystemAdapter:
     def window(self, s, a):
         p = a["pos"]
         d = s.displays["a"]
-        d.clear()
+        if a["can"] in ("none", "ok") and len(d.observations) >= d.window_size:
+            d.canary_results.clear()        # let the window slide: window_size fresh observations push every old one out (same content as after clear())
+        else:
+            d.clear()
         out, t, c = self.BASE
         if p["len"] == "above":
             out = out + " alpha beta gamma" * 3
